@@ -220,7 +220,7 @@ func ruleSignalTable(c *core.Ctx) {
 	isUID := func(v ssa.Value) bool { return isFieldOf(v, userID) }
 	// removeSignalUser (and the private helpers it hands the work to): writes to
 	// signals guarded by userID equality and endpoint equality
-	idp := ssa.Value(rm.Params[1])
+	idp := requestIDParam(rm)
 	isParam := func(v ssa.Value) bool { return resolvesTo(c, v, idp, 0) }
 	isEP := func(v ssa.Value) bool {
 		cr, _ := core.CallResult(v)
@@ -252,7 +252,7 @@ func ruleSignalTable(c *core.Ctx) {
 	// addSignalUser: a user id already present prevents the append.  The id of the
 	// registration being added: the parameter, or the userID field of the entry
 	// built from it (also as seen from a private helper that receives either).
-	idp2 := ssa.Value(add.Params[1])
+	idp2 := requestIDParam(add)
 	isNewID := func(v ssa.Value) bool {
 		if resolvesTo(c, v, idp2, 0) {
 			return true
@@ -457,6 +457,16 @@ func resolvesTo(c *core.Ctx, v, target ssa.Value, depth int) bool {
 	w := core.Canon(v)
 	if w == target {
 		return true
+	}
+	// the identifier travelling in a request struct handed in as one parameter
+	// (`reg.userID`): the one field of the identifier's type read from that parameter
+	if tp, ok := target.(*ssa.Parameter); ok {
+		if st, isStruct := tp.Type().Underlying().(*types.Struct); isStruct {
+			if idT := soleIDFieldType(st); idT != nil && types.Identical(w.Type(), idT) &&
+				len(core.AccessPath(w).Fields) > 0 && core.RootOf(w) == target {
+				return true
+			}
+		}
 	}
 	p, ok := w.(*ssa.Parameter)
 	if !ok || depth > 3 || p.Parent() == nil || !isPrivateHelper(c, p.Parent()) {
@@ -892,6 +902,7 @@ func ruleRefcount(c *core.Ctx) {
 		if depth > 3 || len(f.Blocks) == 0 {
 			return false
 		}
+		hits := map[ssa.Instruction]bool{}
 		for _, call := range core.Calls(f) {
 			if _, plain := call.(*ssa.Call); !plain {
 				continue
@@ -910,20 +921,20 @@ func ruleRefcount(c *core.Ctx) {
 					}
 				}
 			}
-			if !hit {
-				continue
-			}
-			all := true
-			for _, ret := range core.Returns(f) {
-				if !core.MustPassBefore(f, ret, func(x ssa.Instruction) bool { return x == call.(ssa.Instruction) }) {
-					all = false
-				}
-			}
-			if all {
-				return true
+			if hit {
+				hits[call.(ssa.Instruction)] = true
 			}
 		}
-		return false
+		if len(hits) == 0 {
+			return false
+		}
+		// every way out passes one of the calls (early-return style: one call per branch)
+		for _, ret := range core.Returns(f) {
+			if !core.MustPassBefore(f, ret, func(x ssa.Instruction) bool { return hits[x] }) {
+				return false
+			}
+		}
+		return true
 	}
 	okCancel := false
 	for _, f := range fn.AnonFuncs {
@@ -1291,4 +1302,46 @@ func forwardsTo(f, target *ssa.Function) bool {
 		}
 	}
 	return hit && n == 1
+}
+
+// requestIDParam: the parameter of a (un)registration function that carries
+// the user's identifier — the first 64-bit unsigned parameter, or the struct
+// parameter that bundles the request when the identifier travels inside it.
+func requestIDParam(fn *ssa.Function) ssa.Value {
+	for _, p := range fn.Params[1:] {
+		if b, ok := p.Type().Underlying().(*types.Basic); ok && b.Kind() == types.Uint64 {
+			return p
+		}
+	}
+	for _, p := range fn.Params[1:] {
+		if st, ok := p.Type().Underlying().(*types.Struct); ok && soleIDFieldType(st) != nil {
+			return p
+		}
+	}
+	return fn.Params[1]
+}
+
+// soleIDFieldType: st (embedded structs included) has exactly one field of a
+// 64-bit unsigned type; returns that type.
+func soleIDFieldType(st *types.Struct) types.Type {
+	var found types.Type
+	n := 0
+	var walk func(s *types.Struct, depth int)
+	walk = func(s *types.Struct, depth int) {
+		for i := 0; i < s.NumFields(); i++ {
+			f := s.Field(i)
+			if b, ok := f.Type().Underlying().(*types.Basic); ok && b.Kind() == types.Uint64 {
+				n++
+				found = f.Type()
+			}
+			if in, ok := f.Type().Underlying().(*types.Struct); ok && depth < 2 {
+				walk(in, depth+1)
+			}
+		}
+	}
+	walk(st, 0)
+	if n == 1 {
+		return found
+	}
+	return nil
 }
